@@ -47,7 +47,8 @@ SPECIAL = ["tuple[()]", "Literal[1]", "Literal['a']", "Literal[True]", "Literal[
            "Callable", "list", "dict", "tuple", "type", "Union[A, foo.Bar]", "type[Union[A, int]]",
            "tuple[int, tuple[str, ...]]", "dict[str, dict[str, list[Optional[int]]]]",
            "Callable[[Callable[[int], str]], Callable[..., None]]",
-           "Union[int, list[Union[str, None]]]", "Optional[Callable[[], Optional[int]]]"]
+           "Union[int, list[Union[str, None]]]", "Optional[Callable[[], Optional[int]]]",
+           "Literal[1, True]", "Literal[0, False, 'a']", "Literal[1, 2] | Literal['a']"]
 
 
 def types(tier):
